@@ -3,6 +3,7 @@ package props
 import (
 	"encoding/json"
 	"fmt"
+	"strings"
 	"time"
 
 	"github.com/vektah/gqlparser/v2/ast"
@@ -159,4 +160,88 @@ func c01Families(c *explore.Ctx) {
 		}
 	}
 	s.WallS = time.Since(t0).Seconds()
+	c01TwoSources(c)
+}
+
+// c01TwoSources: the limited multi-source entry point, a small leading source that uses part (or exactly all) of
+// the limit followed by a deeply nested one: the limit bounds the recursion in every source.
+func c01TwoSources(c *explore.Ctx) {
+	leads := c01Leads
+	maxBytes := c.Pick(1<<20, 8<<20)
+	s := c.Sub("families-two-sources", fmt.Sprintf("ParseSchemasWithLimit(L, lead, nested) for %d leading sources × every nesting family of the type-system grammar at n = 2^k up to %d bytes × L = 1 … 14, 64", len(leads), maxBytes),
+		"returns normally with call depth ≤ 200+70·L in every source (a later source is under the limit as the first one is), steps linear", "every case")
+	if s == nil {
+		return
+	}
+	t0 := time.Now()
+	idx := 0
+	for fi := range gen.ParseFamilies {
+		f := &gen.ParseFamilies[fi]
+		if !f.SDL || !(strings.Contains(f.Name, "nest") || strings.Contains(f.Name, "unclosed")) {
+			continue
+		}
+		for li := range leads {
+			for _, limit := range []int{1, 2, 3, 4, 5, 6, 7, 8, 9, 10, 11, 12, 13, 14, 64} {
+				for n := 1 << 10; len(f.Make(n)) <= maxBytes; n *= 32 {
+					idx++
+					if idx%c.NShards != c.Shard {
+						continue
+					}
+					if c.Expired() {
+						s.Cap("deadline")
+						return
+					}
+					s.States++
+					s.Transitions++
+					c01TwoCase(c, s, f, li, n, limit)
+				}
+			}
+		}
+	}
+	s.WallS = time.Since(t0).Seconds()
+}
+
+var c01Leads = []string{"type A { a: Int }", "# c\nscalar A", "", "scalar A scalar B scalar C", `"d" enum E { V }`}
+
+type twoInput struct {
+	Lead   int    `json:"lead"`
+	Family string `json:"family"`
+	N      int    `json:"n"`
+	Limit  int    `json:"limit"`
+}
+
+func c01ReplayTwo(c *explore.Ctx, s *explore.SubStats, raw json.RawMessage) {
+	var in twoInput
+	if json.Unmarshal(raw, &in) != nil || in.Lead < 0 || in.Lead >= len(c01Leads) {
+		return
+	}
+	if f := findFamily(gen.ParseFamilies, in.Family); f != nil {
+		c01TwoCase(c, s, f, in.Lead, in.N, in.Limit)
+	}
+}
+
+func c01TwoCase(c *explore.Ctx, s *explore.SubStats, f *gen.Family, li, n, limit int) {
+	lead := c01Leads[li]
+	s.Executions++
+	text := f.Make(n)
+	rendered := fmt.Sprintf("lead=%q then family=%s n=%d limit=%d", lead, f.Name, n, limit)
+	explore.Crumb(s.Name, rendered)
+	var err error
+	r := guarded(famStepBound(len(text)+len(lead)), c16DepthBound(limit), func() {
+		_, err = parser.ParseSchemasWithLimit(limit, &ast.Source{Name: "lead", Input: lead}, &ast.Source{Name: "f", Input: text})
+	})
+	s.Validated++
+	s.MaxOf("depth", int64(r.MaxDepth))
+	if r.Panicked {
+		key := "panic site=" + r.Site + " msg=" + normMsg(r.PanicVal)
+		if r.Budget {
+			key = "budget two-sources family=" + f.Name
+		}
+		c.Report(s, explore.Violation{Key: key, Input: explore.J(twoInput{li, f.Name, n, limit}), Rendered: rendered,
+			Detail: fmt.Sprintf("ParseSchemasWithLimit: %s", r.PanicVal)})
+		return
+	}
+	s.Nontrivial++
+	s.Outcome(fmt.Sprintf("%s:err=%v", f.Name, err != nil))
+
 }
